@@ -17,7 +17,7 @@ RULE = ("stratified + seeded random (configuration, sample) pairs inside the doc
         "beyond, total > N t); distinct = hash of (configuration, sample)")
 REQUIRED = [f"contract:NonnegMean.{t}" for t in nn.TESTS] + ["stratum:len1", "stratum:m_to_0", "stratum:m_to_u",
                                                              "stratum:m_above_u", "stratum:m_below_0",
-                                                             "random_order_false", "stratum:nondyadic_runs"]
+                                                             "random_order_false", "stratum:nondyadic_runs", "integer_dtype_samples", "object_warmed_up_with_another_N", "object_built_with_another_u"]
 ASSUMPTIONS = ["samples are numpy arrays of floats in [0,u] (dyadic in the boundary strata, runs of non-representable values in the nondyadic stratum); documented exclusions: finite-N SPRT with "
                "random_order=False (raises by design), Kaplan-Markov/Wald with finite N",
                "numpy/pandas are trusted"]
@@ -119,6 +119,12 @@ def run_case(case, rec):
     boundary = len(x) == 1 or any(m <= 0 or m >= cfg["u"] for m in mu) or (math.isfinite(N) and sum(x) > N * cfg["t"])
     rec.case(case, nontrivial=(len(set(x)) > 1 or boundary))
     rec.count(f"stratum:{st}")
+    if cfg.get("int_dtype") and all(float(v).is_integer() for v in x):
+        rec.count("integer_dtype_samples")
+    if "N_warm" in cfg:
+        rec.count("object_warmed_up_with_another_N")
+    if "u_built" in cfg:
+        rec.count("object_built_with_another_u")
     rec.count(f"combo:{nn.label(cfg)}")
     if any(m == 0 for m in mu):
         rec.count("regime:mu_exactly_0")
@@ -132,4 +138,4 @@ def run_case(case, rec):
         rec.count("regime:total_exceeds_Nt")
     obj = nn.build(cfg)
     with np.errstate(all="ignore"):
-        rec.guard(f"c11.call:{nn.label(cfg)}", obj.test, np.array(x, dtype=float))
+        rec.guard(f"c11.call:{nn.label(cfg)}", obj.test, nn.to_array(x, cfg))
